@@ -399,17 +399,24 @@ def base_project(rnd, crops=(("SM", ""), ("SOY", "000")), years=(1980, 1983), so
 TEXTURES = ["SS ", "SL2", "SL3", "SL4", "SU3", "ULS", "LS2", "LT2", "UT3", "LU ", "TU3", "ST2"]
 
 
-def gen_soil(rnd):
+def gen_soil(rnd, hydraulic=None):
+    """hydraulic=False: field capacity / wilting point / pore volume left blank (the table route: texture, density
+    class and stone content decide)"""
+    if hydraulic is None:
+        hydraulic = rnd.random() < 0.5
     n = 1 + rnd.randrange(4)
     depth = sorted(rnd.sample(range(2, 20), n - 1)) + [20] if n > 1 else [20]
     hs = []
     for i in range(n):
         fc = rnd.randrange(18, 40)
         wp = rnd.randrange(5, fc - 6)
+        sand = rnd.randrange(5, 80)
+        clay = rnd.randrange(3, min(40, 95 - sand))
         hs.append({"corg": "%.2f" % (rnd.randrange(10, 250) / 100.0 / (i + 1)), "tex": rnd.choice(TEXTURES), "depth": "%02d" % depth[i],
-                   "ld": str(1 + rnd.randrange(5)), "stone": "%02d" % rnd.choice([0, 0, 5, 12, 30]), "cn": rnd.choice(["10", "12", "9", "0"]),
-                   "fc": "%02d" % fc, "wp": "%02d" % wp, "ps": "%02d" % rnd.randrange(fc + 2, 55),
-                   "sand": "%02d" % rnd.randrange(5, 80), "silt": "%02d" % rnd.randrange(5, 60), "clay": "%02d" % rnd.randrange(3, 40)})
+                   "ld": str(1 + rnd.randrange(5)), "stone": "%02d" % rnd.choice([0, 5, 12, 30]), "cn": rnd.choice(["10", "12", "9", "0"]),
+                   "fc": "%02d" % fc if hydraulic else "", "wp": "%02d" % wp if hydraulic else "",
+                   "ps": "%02d" % rnd.randrange(fc + 2, 55) if hydraulic else "",
+                   "sand": "%02d" % sand, "silt": "%02d" % (100 - sand - clay), "clay": "%02d" % clay})
     return hs
 
 
